@@ -1,5 +1,5 @@
 (* Decoders of the header codecs regenerated from the source (Gen/SrcGeonet.v): equal to the model's decoders; round trips. *)
-From FlexVerif Require Import Base.Prelude Base.Bits Base.BitsFacts Model.Lifetime Model.Wire Gen.SrcGeonet Proofs.WireProofs
+From FlexVerif Require Import Base.Prelude Base.Bits Base.BitsFacts Model.Lifetime Model.Wire Gen.SrcGeonet Proofs.WireProofs Proofs.SrcLifetimeEquiv
   Proofs.SrcWireEquiv.
 From Coq Require Import ZifyBool.
 Ltac Zify.zify_post_hook ::= Z.to_euclidean_division_equations.
@@ -207,7 +207,7 @@ Proof.
   cbn [option_map].
   unfold view_gnaddr in Ea. destruct (arg 1 (unpack gnaddr_ws (X / 2 ^ 128)) <=? 12); [|discriminate].
   injection Ea as <-.
-  unfold TST_decode. rewrite !to_signed_src_model by lia.
+  rewrite ?src_tst_decode. rewrite !to_signed_src_model by lia.
   unfold lpv_tuple, gnaddr_tuple. cbn [app arg nth].
   unfold unpack, lpv_ws, gnaddr_ws. cbn [rev app unpack_rev arg nth].
   change 4294967295 with (2 ^ 32 - 1). change 32767 with (2 ^ 15 - 1). change 65535 with (2 ^ 16 - 1).
@@ -265,7 +265,7 @@ Proof.
   cbn [option_map].
   unfold view_gnaddr in Ea. destruct (arg 1 (unpack gnaddr_ws (X / 2 ^ 96)) <=? 12); [|discriminate].
   injection Ea as <-.
-  unfold TST_decode. rewrite !to_signed_src_model by lia.
+  rewrite ?src_tst_decode. rewrite !to_signed_src_model by lia.
   unfold spv_tuple, gnaddr_tuple. cbn [app arg nth].
   unfold unpack, spv_ws, gnaddr_ws. cbn [rev app unpack_rev arg nth].
   change 4294967295 with (2 ^ 32 - 1). rewrite !land_mask by lia. change 4294967296 with (2 ^ 32).
